@@ -187,6 +187,11 @@ def MID(text, start_num, num_chars=1):
     return text[start_num - 1:][:num_chars]
 
 
+MONTH_NAMES = ('January', 'February', 'March', 'April', 'May', 'June', 'July', 'August', 'September', 'October',
+               'November', 'December')
+WEEKDAY_NAMES = ('Monday', 'Tuesday', 'Wednesday', 'Thursday', 'Friday', 'Saturday', 'Sunday')
+
+
 @dispatcher.register_for('TEXT')
 def TEXT(value, format_text):
     if not isinstance(format_text, string_types):
@@ -201,12 +206,17 @@ def TEXT(value, format_text):
             format_text = re.sub(r'\bmm\b', f"{value.month:02}", format_text)
             format_text = re.sub(r'\bm\b', str(value.month), format_text)
         
+        # month and weekday names and AM/PM are written out here: strftime's %B %b %A %a %p print them
+        # in the language of the host process (and %p is empty in some locales)
+        month = MONTH_NAMES[value.month - 1]
+        weekday = WEEKDAY_NAMES[value.weekday()]
+        half = 'AM' if value.hour < 12 else 'PM'
         format_mapping = {
             "yyyy": "%Y", "yyy": "%Y", "yy": "%y",
-            "mmmmm": value.strftime('%B')[0], "mmmm": "%B", "mmm": "%b",
-            "dddd": "%A","ddd": "%a","dd": f"{value.day:02}", "d": str(value.day),
+            "mmmmm": month[0], "mmmm": month, "mmm": month[:3],
+            "dddd": weekday, "ddd": weekday[:3], "dd": f"{value.day:02}", "d": str(value.day),
             "hh": "%H", "h": str(value.hour or 12), "ss": "%S", "s": str(value.second or 12),
-            "am/pm": "%p", "a/p": value.strftime("%p")[0].lower()
+            "am/pm": half, "a/p": half[0].lower()
         }
 
         for k, v in format_mapping.items():
